@@ -284,3 +284,30 @@ func H_c08_tomap() {
 	}
 	verif_witness()
 }
+
+// H_c08_memfile: a file shipped ahead of a task (BOF, assembly, shellcode, upload) to an agent
+// 1..2 hops below a direct agent travels like the task itself: every chunk job is queued,
+// wrapped as a pivot task, on the first hop, ahead of the task that uses the file.
+func H_c08_memfile() {
+	ts, A, B, C := verifStateS()
+	depth := 1 + nondet_choice("depth", 2)
+	T := B
+	if depth == 2 {
+		C.Pivots.Parent = B
+		B.Pivots.Links = append(B.Pivots.Links, C)
+		T = C
+	}
+	data := nondet_bytes("file", nondet_choice("file-length", 3))
+	T.UploadMemFileInChunks(data)
+	verif_assert(len(A.JobQueue) == 1, "the chunk of a memory file for a pivot agent is queued on the first hop")
+	msg := map[string]string{}
+	job, err := T.TaskPrepare(COMMAND_SLEEP, map[string]any{"TaskID": "0000000a", "Arguments": "5;10"}, &msg, "", ts)
+	verif_assume(err == nil)
+	verif_assume(job != nil)
+	T.AddJobToQueue(*job)
+	verif_assert(len(A.JobQueue) == 2, "the task that uses the file follows its chunks on the first hop")
+	for _, j := range A.JobQueue {
+		verif_assert(j.Command == COMMAND_PIVOT, "everything for a pivot agent reaches the first hop wrapped as a pivot task")
+	}
+	verif_witness()
+}
